@@ -368,7 +368,7 @@ func (x *Exec) loopHead(li *loopInfo, st *State, variants map[*ssa.BasicBlock]Te
 	}
 	// ghost call counters and the last random draw may change in any loop that makes calls
 	for _, c := range x.compOrder {
-		if strings.HasPrefix(c, "Ghost_calls_") || c == "Ghost_lastrand" {
+		if strings.HasPrefix(c, "Ghost_calls_") || strings.HasPrefix(c, "Ghost_last") {
 			st.heap[c] = x.havocConst(c+"@loop", x.comps[c])
 		}
 	}
